@@ -461,3 +461,19 @@ def _is_known(self, f) -> bool:
 
 
 Ctx.is_known = _is_known
+
+
+def call_with_oracle(model: Model, op: str, args: dict, oracle, max_rounds: int = 10):
+    """Calls a driver op whose curves are oracle tables: whenever the model asks for a key
+    (`need: [curve, key]`) the oracle (curve name, Fraction key) -> float is evaluated on the real
+    object and the call repeated. Returns (answer, tables, rounds)."""
+    tables = {k: list(v) for k, v in (args.get("curves") or {}).items()}
+    for rounds in range(1, max_rounds + 1):
+        ans = model.call(op, **dict(args, curves=tables))
+        if isinstance(ans, dict) and "need" in ans:
+            name, key = ans["need"]
+            val = oracle(name, dec(key))
+            tables.setdefault(name, []).append([key, enc(val)])
+            continue
+        return ans, tables, rounds
+    raise HarnessError(f"oracle rounds exceeded for {op}")
